@@ -347,6 +347,43 @@ fn fresh_literal_case(index: u64, st: &mut Stats) {
     }
 }
 
+/// Shared-literal family (C10), the converse of the fresh-literal one: a container literal evaluated ONCE and bound
+/// to a name is one container, however often and from wherever the name is read - also when the program text
+/// reads the name exactly once (inside a closure, a loop body, a recursive function). 3 shapes x 3 contexts x {::, :=}.
+const SHARED_SLOTS: u64 = 3 * 3 * 2;
+
+fn shared_literal_case(index: u64, st: &mut Stats) {
+    let shapes: [(&str, &str); 3] = [("[]", "seen"), ("(0, [])", "seen[1]"), ("Box { l: [] }", "seen.l")];
+    let (lit, acc) = shapes[(index % 3) as usize];
+    let ctx = (index / 3) % 3;
+    let def = if (index / 9) % 2 == 0 { "::" } else { ":=" };
+    let decls = "Box :: blob {\n    l: [int],\n}\n\n";
+    let body = match ctx {
+        0 => format!("counter :: fn -> fn int -> int do\n    seen {def} {lit}\n    fn x: int -> int do\n        l :: {acc}\n        list.push(l, x)\n        list.len(l)\n    end\nend\n\nstart :: fn do\n    c :: counter()\n    print(c(10))\n    print(c(20))\n    print(c(30))\nend\n", def = def, lit = lit, acc = acc),
+        1 => format!("start :: fn do\n    seen {def} {lit}\n    i := 0\n    n := 0\n    loop i < 3 do\n        i += 1\n        l :: {acc}\n        list.push(l, i)\n        n = list.len(l)\n        print(n)\n    end\nend\n", def = def, lit = lit, acc = acc),
+        _ => format!("seen {def} {lit}\n\nvisit :: fn n: int -> int do\n    l :: {acc}\n    list.push(l, n)\n    if n > 1 do\n        ret visit(n - 1)\n    end\n    list.len(l)\nend\n\nstart :: fn do\n    print(visit(3))\n    print(visit(2))\nend\n", def = def, lit = lit, acc = acc),
+    };
+    let expect: Vec<String> = match ctx {
+        0 | 1 => vec!["1".into(), "2".into(), "3".into()],
+        _ => vec!["3".into(), "5".into()],
+    };
+    let text = format!("{}{}", decls, body);
+    let what = format!("`seen {} {}` read once in {}", def, lit, ["a closure called three times", "a loop body", "a recursive function"][ctx as usize]);
+    st.count("shared_literal_programs");
+    let viol = |sig: &str, obs: String| Violation { signature: sig.to_string(), hazard: None, case: index, detail: J::obj().with("what", J::s(what.clone())).with("program", J::s(text.clone())).with("expected_prints", J::Arr(expect.iter().map(|e| J::s(e.clone())).collect())).with("observed", J::s(obs)) };
+    match sy::compile_files(&sy::one_file(&text), "main.sy", &sy::CompileOpts { fuel: Some(crate::rel::CAMPAIGN_FUEL), ..Default::default() }) {
+        sy::Compiled::Ok(b) => match lua::run_simple(&String::from_utf8_lossy(&b)) {
+            lua::Simple::Prints(p) if p == expect => {
+                st.count("shared_literal_programs_as_expected");
+                st.nontrivial(hash64(text.as_bytes()));
+            }
+            lua::Simple::Prints(p) => st.violation(viol("held:named-container-rebuilt-at-its-read", format!("{:?}", p))),
+            other => st.violation(viol("held:shared-literal-run-failed", format!("{:?}", other).chars().take(300).collect())),
+        },
+        other => st.violation(viol("held:shared-literal-template-rejected", other.brief())),
+    }
+}
+
 /// Expression-result family (C01): the value of an if / case / and / or expression is combined with the
 /// result of a recursive call of the same function; each activation's expression value depends on its
 /// argument, so the sum has a closed form. 12 expression shapes x value before / after the call.
@@ -687,6 +724,10 @@ impl Check for Traced {
         }
         if self.prop == "C10" && index < HELD_SLOTS + CAPTURE_SLOTS + TARGET_SLOTS + CALLEE_SLOTS + FRESH_SLOTS {
             fresh_literal_case(index - HELD_SLOTS - CAPTURE_SLOTS - TARGET_SLOTS - CALLEE_SLOTS, st);
+            return;
+        }
+        if self.prop == "C10" && index < HELD_SLOTS + CAPTURE_SLOTS + TARGET_SLOTS + CALLEE_SLOTS + FRESH_SLOTS + SHARED_SLOTS {
+            shared_literal_case(index - HELD_SLOTS - CAPTURE_SLOTS - TARGET_SLOTS - CALLEE_SLOTS - FRESH_SLOTS, st);
             return;
         }
         let mut rng = Rng::for_case(ctx.seed, self.prop, index);
